@@ -23,7 +23,7 @@ RULE = ("scenario = 2..4 concurrent send_message callers on one stream pair (sta
         "generated permutation/timing + unrelated notifications/foreign responses; non-trivial = an answer was delivered while at "
         "least two callers were waiting")
 PROBES = ["answer_consumed_by_other_waiter", "answer_on_poll_edge", "answers_out_of_call_order", "answer_at_deadline"]
-TIERS = {"quick": {"runs": 5000, "wall": 40.0}, "thorough": {"runs": 300000, "wall": 540.0}}
+TIERS = {"quick": {"runs": 25000, "wall": 45.0}, "thorough": {"runs": 2000000, "wall": 560.0}}
 ASSUMPTIONS = ["an answer is only sent after the peer has seen the request (a server cannot answer an id it has not received)"]
 SHRINK_LISTS = ["events"]
 
